@@ -42,14 +42,28 @@ type Result struct {
 	Events     int            // seam events
 	Reboots    int            // crash states materialised and rebooted
 	Inconcl    int            // inconclusive sub-checks (e.g. porcupine Unknown); never reported
+	Known      map[string]int // known findings hit (and skipped) inside this run
+}
+
+// process-wide set of known-finding keys of the property being checked, so that an
+// engine can keep exploring a run past a recorded finding.
+var knownKeys map[string]string
+
+func IsKnown(key string) bool { _, ok := knownKeys[key]; return ok }
+
+func (r *Result) KnownHit(key string) {
+	if r.Known == nil {
+		r.Known = map[string]int{}
+	}
+	r.Known[key]++
 }
 
 func NewResult() *Result {
 	return &Result{Faults: map[string]int{}, Probes: map[string]int{}}
 }
 
-func (r *Result) Fault(kind string)  { r.Faults[kind]++ }
-func (r *Result) Probe(name string)  { r.Probes[name]++ }
+func (r *Result) Fault(kind string) { r.Faults[kind]++ }
+func (r *Result) Probe(name string) { r.Probes[name]++ }
 func (r *Result) Fail(v *Violation) *Result {
 	if r.Violation == nil {
 		r.Violation = v
@@ -70,8 +84,8 @@ type Check struct {
 	Rule        string
 	Assumptions []string
 	Components  Components
-	Perturbed   []string         // parts explored by perturbation only (no decided interleaving)
-	Runs        map[string]int   // tier -> total runs over all workers
+	Perturbed   []string       // parts explored by perturbation only (no decided interleaving)
+	Runs        map[string]int // tier -> total runs over all workers
 	Gen         func(r *Rand, tier string) any
 	Decode      func(b []byte) (any, error)
 	Run         func(t *testing.T, plan any) *Result
@@ -281,6 +295,7 @@ func RunWorker(t *testing.T, checks map[string]*Check) {
 	}
 	detlog := os.Getenv("VERIF_DETLOG") != ""
 	known := loadKnown(os.Getenv("VERIF_KNOWN"), prop)
+	knownKeys = known
 
 	defer func() {
 		if r := recover(); r != nil {
@@ -321,6 +336,10 @@ func RunWorker(t *testing.T, checks map[string]*Check) {
 		}
 		res := SafeRun(t, c, plan)
 		rep.Runs = 1
+		for k, n := range res.Known {
+			rep.Known[k] += n
+			rep.KnownWhat[k] = known[k]
+		}
 		if res.Violation != nil {
 			v := rf
 			v.Oracle, v.Key, v.Msg = res.Violation.Oracle, res.Violation.Key, res.Violation.Msg
@@ -370,6 +389,10 @@ func RunWorker(t *testing.T, checks map[string]*Check) {
 		rep.Events += res.Events
 		rep.Reboots += res.Reboots
 		rep.Inconcl += res.Inconcl
+		for k, n := range res.Known {
+			rep.Known[k] += n
+			rep.KnownWhat[k] = known[k]
+		}
 		if res.NonTrivial && len(nt) < fpCap {
 			nt[uint64(NewHash().U64(res.SchedFP).U64(res.StateFP))] = true
 		}
@@ -458,7 +481,7 @@ func Minimise(t *testing.T, c *Check, plan any, v *Violation, known map[string]s
 			}
 			execs++
 			res := SafeRun(t, c, cand)
-			if res.Violation != nil && res.Violation.Oracle == v.Oracle {
+			if res.Violation != nil && res.Violation.Oracle == v.Oracle && res.Violation.Key == v.Key {
 				if _, isKnown := known[res.Violation.Key]; isKnown {
 					continue
 				}
